@@ -8,7 +8,7 @@ import ipaddress
 import random
 
 from sim import workload, configs, refike as R
-from sim.childcheck import newsa_index, quad, ts_to_kernel, sel_str
+from sim.childcheck import newsa_index, quad, ts_to_kernel, sel_str, ts_cover, kernel_half_vs_cover
 from sim.kernel import K, sel_nets
 from sim.observe import WireLog
 from sim.scenario import execute, replayable
@@ -213,6 +213,24 @@ def judge(w, tap, scenario, reach):
                 want = (str(src[0]), str(dst[0]), src[1], src[2], dst[1], dst[2], src[3] or dst[3])
                 if got != want:
                     return V('kernel_selector_not_the_negotiated_one', {'role': who.split()[1]}, f'{who}: kernel selector {sel_str(sel)} but negotiated {want}')
+        elif q is not None:
+            # ... and for a selector that is a real range (addresses that are no CIDR block, ports first..last) the smallest network that
+            # holds it, and never more ports than were negotiated
+            ca, cb = ts_cover(a), ts_cover(b)
+            for rec, src, dst, who in ((q[0], ca, cb, 'initiator outbound'), (q[1], ca, cb, 'responder inbound'), (q[2], cb, ca, 'initiator inbound'),
+                                       (q[3], cb, ca, 'responder outbound')):
+                if rec is None:
+                    continue
+                sel = rec['decoded']['sa']['sel']
+                nets = sel_nets(sel)
+                if not nets:
+                    continue
+                reach['kernel_selectors_compared_ranges'] = reach.get('kernel_selectors_compared_ranges', 0) + 1
+                bad = kernel_half_vs_cover(nets[0], sel['sport'], sel['sport_mask'], src) or kernel_half_vs_cover(nets[1], sel['dport'], sel['dport_mask'], dst)
+                if bad:
+                    return V('kernel_selector_not_the_negotiated_one', {'role': who.split()[1], 'field': bad, 'selectors': 'ranges'},
+                             f'{who}: kernel selector {sel_str(sel)} for negotiated TSi {ts_set(a)} / TSr {ts_set(b)}: the {bad} is not what these '
+                             f'ranges denote (smallest network holding the addresses; all ports only if all were negotiated, else one of the range)')
     # ---- refusals: when no entry of the responder could admit the request in the requested mode, the answer is TS_UNACCEPTABLE
     for m in tap.messages:
         if m['clear'] or not m['h']['R'] or m.get('request') is None or m['h']['exch'] not in (R.IKE_AUTH, R.CREATE_CHILD_SA):
